@@ -62,12 +62,18 @@ impl Proposal {
             Threshold::AbsolutePercentage {
                 percentage: percentage_needed,
             } => {
-                self.votes.yes
-                    >= votes_needed(self.total_weight - self.votes.abstain, percentage_needed)
+                // a proposal never passes without any Yes weight (e.g. when everybody abstains)
+                self.votes.yes > 0
+                    && self.votes.yes
+                        >= votes_needed(self.total_weight - self.votes.abstain, percentage_needed)
             }
             Threshold::ThresholdQuorum { threshold, quorum } => {
                 // we always require the quorum
                 if self.votes.total() < votes_needed(self.total_weight, quorum) {
+                    return false;
+                }
+                // a proposal never passes without any Yes weight (e.g. when everybody abstains)
+                if self.votes.yes == 0 {
                     return false;
                 }
                 if self.expires.is_expired(block) {
